@@ -1,7 +1,9 @@
 (* Extraction of the gate model over the regenerated tables. ExtrOcamlBasic only. *)
 From Coq Require Import Extraction ExtrOcamlBasic String ZArith NArith.
-From T38 Require Import Model.Tables Model.Gate Model.Sandbox Gen.ScriptTables Gen.Dispatch Gen.AuthGate Gen.LuaAllow.
+From T38 Require Import Model.Tables Model.Gate Model.Sandbox Gen.ScriptTables Gen.Dispatch Gen.AuthGate Gen.LuaAllow
+  Model.RoleTypes Gen.RoleGates Model.RoleState.
 Extraction Language OCaml.
 Extraction "model.ml" Z.add Z.of_N Nat.add gate script_gate script_rw script_ro script_na changes reads_objects
   changes_script reads_objects_script all_command_names dev_only auth_exempt early_reply_cmds
-  lua_names documented_allow dangerous_names lua_set_globals lua_os_fns lua_tile38_exports lua_base_fns.
+  lua_names documented_allow dangerous_names lua_set_globals lua_os_fns lua_tile38_exports lua_base_fns
+  readonly_cmd prun pstate0 is_protected follow_session lower.
